@@ -116,20 +116,22 @@ def disk_to_disk(center1, radius1, normal1, center2, radius2, normal2, epsilon=1
         return (np.linalg.norm(closest_point_2 - closest_point_1),
                 closest_point_1, closest_point_2)
 
+    planes_parallel = np.dot(line_direction, line_direction) < epsilon
     line_point, line_direction = line_from_pluecker(line_direction, line_moment)
     h1, p1 = point_to_line(center1, line_point, line_direction)
     h2, p2 = point_to_line(center2, line_point, line_direction)
-    ell = np.linalg.norm(p2 - p1)
-    h = h1 + h2
-    if abs(h) > epsilon:
-        t1 = h1 * ell / h
-        closest_to_both_disks = p1 - line_direction * t1
-        if (np.linalg.norm(closest_to_both_disks - center1) < radius1
-                and np.linalg.norm(closest_to_both_disks - center2) < radius2):
-            return 0.0, closest_to_both_disks, closest_to_both_disks
-    elif ell <= radius1 + radius2:  # both centers are on the common line
-        closest = 0.5 * (center1 + center2)
-        return 0.0, closest, closest
+    # each disk cuts the common line of the two planes in an interval
+    # (or not at all); the disks intersect iff these intervals overlap
+    if not planes_parallel and h1 <= radius1 and h2 <= radius2:
+        half_length1 = math.sqrt(radius1 * radius1 - h1 * h1)
+        half_length2 = math.sqrt(radius2 * radius2 - h2 * h2)
+        t1 = np.dot(p1 - line_point, line_direction)
+        t2 = np.dot(p2 - line_point, line_direction)
+        t_min = max(t1 - half_length1, t2 - half_length2)
+        t_max = min(t1 + half_length1, t2 + half_length2)
+        if t_min <= t_max:
+            closest = line_point + 0.5 * (t_min + t_max) * line_direction
+            return 0.0, closest, closest
 
     # (2) no contact: simple iterative procedure
     # better solution: https://www.sciencedirect.com/science/article/pii/S0307904X0200080X
